@@ -25,20 +25,46 @@ def cases(tier):
     for d in ((1, 2, 3) if q else (1, 2, 3, 4)):
         for dims in itertools.product([2, 3] if (q or d == 4) else [2, 3, 4], repeat=d):
             for m in ((3, 4, 5, 6) if q else (3, 4, 5, 6, 8, 10)):
-                for fam, thr in (('generic', 0), ('generic', 1e-10), ('lowrank2', 1e-10), ('lowrank3', 1e-10), ('smalleig', 1e-2), ('smalleig', 1e-10)):
+                for fam, thr in (('generic', 0), ('generic', 1e-10), ('lowrank2', 1e-10), ('lowrank3', 1e-10), ('smalleig', 1e-2), ('smalleig', 1e-10),
+                                 ('impulses', 0), ('impulses', 1e-10), ('nearcut', 1e-3), ('nearcut', 1e-6)):
                     for rep in ('ttsvd', 'over', 'split', 'orthod'):
                         for fl in ('TT', 'FT', 'TF', 'FF'):
                             if rep in ('over', 'split', 'orthod') and fl != 'TT':
                                 continue
                             if rep == 'split' and thr == 0:
                                 continue
+                            if fam == 'nearcut' and rep != 'ttsvd':
+                                continue      # the cut sits just below a singular value: only the representation whose spatial cores are orthonormal
                             if rep == 'orthod' and thr > 1e-6:
                                 continue      # a coarse cut also acts on the spatial bonds, whose spectra depend on the gauge
                             yield {'dims': list(dims), 'm': m, 'fam': fam, 'thr': thr, 'rep': rep, 'fl': fl}
 
 
-def make_data(rng, dims, m, fam):
+def make_data(rng, dims, m, fam, thr=0):
     N = int(np.prod(dims))
+    if fam == 'impulses':
+        # localised impulses at distinct sites with site-wise decay: the reduced matrix is exactly diagonal, its eigenvectors
+        # are unit vectors (exact zeros in every first component but one)
+        k = min(N, m)
+        X = np.zeros((N, m)); Y = np.zeros((N, m))
+        lam = 0.9 - 0.13 * np.arange(k)
+        for j in range(k):
+            X[(3 * j + 1) % N if np.gcd(3, N) == 1 else j, j] = 1.0 + 0.5 * j
+        for j in range(k, m):
+            X[:, j] = X[:, j - k] * 0.5
+        Y = X * 0.0
+        for j in range(m):
+            i_ = int(np.argmax(np.abs(X[:, j])))
+            Y[i_, j] = X[i_, j] * lam[j % k]
+        return X, Y
+    if fam == 'nearcut':
+        # singular values 1, .95, .9, .85 and one only 1.5 times above the relative cut
+        k = min(N, m, 5)
+        U = np.linalg.qr(rng.standard_normal((N, k)))[0]; V = np.linalg.qr(rng.standard_normal((m, k)))[0]
+        sv = np.array([1.0, 0.95, 0.9, 0.85, 1.5 * thr][:k]); sv[-1] = 1.5 * thr
+        X = (U * sv) @ V.T
+        A = rng.standard_normal((N, N)) / np.sqrt(N)
+        return X, A @ X
     if fam == 'generic':
         Z = rng.standard_normal((N, m + 1))
     elif fam == 'smalleig':
@@ -78,7 +104,7 @@ def run_case(case, seed):
     rng = rng_for(case, seed)
     dims, m, thr = case['dims'], case['m'], case['thr']
     d = len(dims); N = int(np.prod(dims))
-    X, Y = make_data(rng, dims, m, case['fam'])
+    X, Y = make_data(rng, dims, m, case['fam'], thr)
     shape = dims + [m] + [1] * (d + 1)
     x = TT(X.reshape(shape)); y = TT(Y.reshape(shape))
     if case['rep'] == 'over':
@@ -112,7 +138,9 @@ def run_case(case, seed):
     U, s, Vt = np.linalg.svd(X, full_matrices=False)
     rel = s / s[0]
     cut = thr if thr else 1e-13
-    if thr >= 1e-6:
+    if case['fam'] == 'nearcut':
+        nogap = False
+    elif thr >= 1e-6:
         nogap = np.any((rel > cut / 5) & (rel < cut * 5))          # a coarse cut: singular values within a factor 5 of it
     else:
         nogap = np.any((rel > cut * 1e-3) & (rel < max(cut * 1e3, 1e-7))) or (thr == 0 and rel.min() < 1e-7)
